@@ -16,8 +16,11 @@ def _parse_sync(lines, res=192):
     return outcome(chart_text(res=res, sync=lines))
 
 
-def _observe_batch(items, recs, ctx):
-    """items: [(id, kind, tick digits, payload...)] with increasing ticks.  One parse; on rejection bisect."""
+def _observe_batch(items, recs, ctx, top=True):
+    """items: [(id, kind, tick digits, payload...)] with increasing ticks.  One parse; on rejection bisect.
+
+    Returns True iff some record of this batch was marked as rejected.  If a whole section is rejected
+    although every line is accepted on its own, the section itself is recorded as rejected."""
     lines = ["0 = TS 4", "0 = B 120000"]
     for it in items:
         lines.append(it["line"])
@@ -27,11 +30,17 @@ def _observe_batch(items, recs, ctx):
         if len(items) == 1:
             it = items[0]
             recs.append(dict(it["rec"], raised=type(val).__name__, msg=str(val)[:160]))
-            return
+            return True
         mid = len(items) // 2
-        _observe_batch(items[:mid], recs, ctx)
-        _observe_batch(items[mid:], recs, ctx)
-        return
+        a = _observe_batch(items[:mid], recs, ctx, top=False)
+        b = _observe_batch(items[mid:], recs, ctx, top=False)
+        if not (a or b):
+            if top or len(items) <= 4:
+                recs.append({"id": items[0]["rec"]["id"] + "+", "props": ["C08"], "kind": "SEC",
+                             "raised": type(val).__name__, "msg": str(val)[:160], "lines": lines, "td": []})
+                return True
+            return False
+        return True
     chart = val
     sync = chart.sync_track
     b = list(sync.bpm_events.events)[1:]
@@ -55,6 +64,7 @@ def _observe_batch(items, recs, ctx):
         except IndexError:
             rec["raised"] = "LineNotDecoded"
         recs.append(rec)
+    return False
 
 
 def _mk(idc, kind, tick_s, **kw):
@@ -134,6 +144,25 @@ def run(ctx):
     items.append(_mk(f"A{len(items)}", "A", "0", us="0"))
     for a in range(0, len(items), 1000):
         _observe_batch(items[a:a + 1000], recs, ctx)
+    # ---- realistic mixed sync sections: tempo changes with signatures and anchors between them
+    for sec in range(ctx.pick(60, 1500)):
+        items = []
+        t = 0
+        last_b = 0
+        for j in range(r.choice([5, 20, 60])):
+            t += r.choice([0, 0, 1, 2, 50, 400])
+            kind = r.choice(["B", "TS", "TS", "A"])
+            if kind == "B":
+                if t <= last_b:
+                    t = last_b + 1
+                last_b = t
+                items.append(_mk(f"M{sec}-{j}", "B", str(t), n=str(r.choice([60000, 120000, 120500, 999, r.randrange(1, 10**6)]))))
+            elif kind == "TS":
+                l = r.choice([None, None, 1, 2, 3, 4])
+                items.append(_mk(f"M{sec}-{j}", "TS", str(t), u=str(r.randrange(1, 33)), l=l))
+            else:
+                items.append(_mk(f"M{sec}-{j}", "A", str(t), us=str(r.randrange(0, 10**9))))
+        _observe_batch(items, recs, ctx)
     _flush(ctx, recs)
     ctx.assumptions += [
         "'nearest float' is checked as |x - n/1000| <= half an ulp of x, exact except at powers of two where it is marginally weaker",
@@ -150,7 +179,7 @@ def _flush(ctx, recs):
     for x in recs[:1]:
         ctx.sample({"record": x})
     for x in recs:
-        ctx.distinct([x["kind"], x.get("nd"), x.get("ud"), x.get("l"), x.get("ad"), x["td"]])
+        ctx.distinct([x["kind"], x.get("nd"), x.get("ud"), x.get("l"), x.get("ad"), x["td"], x.get("lines")])
     for rid, p, clause in ctx.validate(recs):
         rec = by_id[rid]
         line = _line_of(rec)
@@ -158,6 +187,8 @@ def _flush(ctx, recs):
 
 
 def _line_of(rec):
+    if rec["kind"] == "SEC":
+        return "\n".join(rec["lines"])
     tick = "".join(map(str, rec["td"]))
     if rec["kind"] == "B":
         return f"{tick} = B " + "".join(map(str, rec["nd"]))
@@ -168,6 +199,11 @@ def _line_of(rec):
 
 def replay(ctx, obj):
     rec = obj["record"]
+    if rec["kind"] == "SEC":
+        kind, val = _parse_sync(rec["lines"])
+        if kind == "raise":
+            _flush(ctx, [dict(rec, raised=type(val).__name__)])
+        return
     tick = "".join(map(str, rec["td"]))
     if rec["kind"] == "B":
         it = _mk(rec["id"], "B", tick, n="".join(map(str, rec["nd"])))
